@@ -109,6 +109,11 @@ func runC03(r *run) {
 	slog.VerifResetGlobals()
 	_ = slog.RegisterLevel(slog.Level(40), "c03plain")
 	_ = slog.RegisterLevel(slog.Level(41), "c03err", slog.RegWithPrintToErrorDevice())
+	// the error device is a registration of its own: neither the treated-as level nor the order of the options decides it
+	_ = slog.RegisterLevel(slog.Level(42), "c03a", slog.RegWithPrintToErrorDevice(), slog.RegWithTreatedAsLevel(slog.InfoLevel))
+	_ = slog.RegisterLevel(slog.Level(43), "c03b", slog.RegWithTreatedAsLevel(slog.ErrorLevel))
+	_ = slog.RegisterLevel(slog.Level(44), "c03c", slog.RegWithTreatedAsLevel(slog.InfoLevel), slog.RegWithPrintToErrorDevice())
+	_ = slog.RegisterLevel(slog.Level(45), "c03d", slog.RegWithTreatedAsLevel(slog.WarnLevel), slog.RegWithPrintToErrorDevice(false))
 	slog.SetFlags(slog.GetFlags() &^ slog.Lcaller)
 	ctx := context.Background()
 	size := func(f *os.File) int64 {
@@ -120,8 +125,8 @@ func runC03(r *run) {
 	if r.tier == "thorough" {
 		n = 6000
 	}
-	probes := []int{4, 2, 3, 5, 40, 41, 9, 11, 8, 0, 7}
-	lvls := []int{4, 2, 5, 41, 40}
+	probes := []int{4, 2, 3, 5, 40, 41, 9, 11, 8, 0, 7, 42, 43, 44, 45}
+	lvls := []int{4, 2, 5, 41, 40, 42, 43}
 	for h := 0; h < n; h++ {
 		log := &evLog{}
 		pool, settable := writerPool(log)
@@ -139,6 +144,8 @@ func runC03(r *run) {
 		}
 		r.emit("C03 reset 8", "ok")
 		r.emit("C03 regerr 41", "ok")
+		r.emit("C03 regerr 42", "ok")
+		r.emit("C03 regerr 44", "ok")
 		st := []string{"C03", "settable"}
 		for _, s := range settable {
 			st = append(st, fmt.Sprint(s))
@@ -229,7 +236,7 @@ func runC03(r *run) {
 				normal, errs, leveled = []int{1000}, []int{1001}, map[int][]int{}
 			}
 		}
-		errClass := map[int]bool{0: true, 1: true, 2: true, 3: true, 11: true, 41: true}
+		errClass := map[int]bool{0: true, 1: true, 2: true, 3: true, 11: true, 41: true, 42: true, 44: true}
 		isSettable := map[int]bool{3: true, 4: true, 6: true}
 		for _, sev := range probes {
 			log.take()
